@@ -1,3 +1,4 @@
+\* MUST FAIL, and by Purity: only Purity is checked here (with several workers TLC reports whichever violation it meets first)
 SPECIFICATION Spec
 CONSTANTS
   Threads <- T1
@@ -9,6 +10,4 @@ CONSTANTS
   FailLeak = FALSE
 VIEW view
 INVARIANT Purity
-INVARIANT MemoSound
-INVARIANT MemoFunctional
 CHECK_DEADLOCK FALSE
